@@ -23,7 +23,27 @@ def ensure_driver():
         )
 
 
-def extract(src="/repo", config="dev", all_targets=False, keep_log=False):
+def extract(src="/repo", config="dev", all_targets=False, keep_log=False, retries=3):
+    """Concurrency-safe wrapper: extractions sharing the cache directory are serialised with a file
+    lock (the fingerprint deletion must not race with another cargo run), and transient cargo
+    failures are retried."""
+    import fcntl
+    os.makedirs(CACHE, exist_ok=True)
+    last = None
+    for attempt in range(retries):
+        with open(os.path.join(CACHE, "extract-%s.lock" % config), "w") as lk:
+            fcntl.flock(lk, fcntl.LOCK_EX)
+            try:
+                return _extract(src, config, all_targets)
+            except ExtractError as e:
+                last = e
+            finally:
+                fcntl.flock(lk, fcntl.LOCK_UN)
+        time.sleep(0.5 * (attempt + 1))
+    raise last
+
+
+def _extract(src="/repo", config="dev", all_targets=False, keep_log=False):
     """Returns the fact dict of the `walleye` bin target of the tree at `src`.
 
     config: "dev" (overflow checks on) or "release" (overflow checks off).
